@@ -13,7 +13,7 @@ EXTENDS BigNum, Json, IOUtils
 
 TDir == IF "VERIF_TABLES" \in DOMAIN IOEnv THEN IOEnv.VERIF_TABLES ELSE "tables"
 SCALE == 110
-NLEV  == 17
+NLEV  == 19
 LevelRows == ndJsonDeserialize(TDir \o "/levels.ndjson")
 NuRows    == ndJsonDeserialize(TDir \o "/nus.ndjson")
 ZQRows    == ndJsonDeserialize(TDir \o "/zq.ndjson")
